@@ -125,14 +125,23 @@ PropEffect(ev, pre, post, freecls) ==
            \* document order: the last performed instruction on a property decides; after a
            \* removal the property may read as a default; nothing else moves
            LET ins == InsOK(ev)
-               touched == {ins[k].p : k \in DOMAIN ins}
+               touched == {ins[k].p : k \in DOMAIN ins} \ {"resourcetype"}
                LastIns(p) == CHOOSE k \in DOMAIN ins : ins[k].p = p /\ \A j \in DOMAIN ins : ins[j].p = p => j <= k
+               \* a performed instruction on DAV:resourcetype makes the collection one of that kind
+               retyped == \E k \in DOMAIN ins : ins[k].p = "resourcetype"
+               Indep == {"displayname", "comment"}      \* properties every kind of collection has
            IN
            /\ Proj(post).store = Proj(pre).store
-           /\ KindsOK(pre, post)
+           /\ IF retyped
+                THEN /\ post.colls[ev.c].kind = ins[LastIns("resourcetype")].rt
+                     /\ \A c \in (Colls(pre) \cap Colls(post)) \ {ev.c} :
+                           pre.colls[c].kind = post.colls[c].kind \/ ~pre.colls[c].typed
+                ELSE KindsOK(pre, post)
            /\ \A c \in Colls(pre) :
-                 \A p \in (DOMAIN pre.colls[c].props \cup DOMAIN post.colls[c].props
-                          \cup (IF c = ev.c THEN touched ELSE {})) :
+                 \A p \in ((DOMAIN pre.colls[c].props \cup DOMAIN post.colls[c].props
+                           \cup (IF c = ev.c THEN touched ELSE {}))
+                          \cap (IF c = ev.c /\ retyped THEN Indep \cup touched ELSE
+                                  DOMAIN pre.colls[c].props \cup DOMAIN post.colls[c].props \cup touched)) :
                     IF c = ev.c /\ p \in touched
                       THEN (ins[LastIns(p)].set /\ ~ins[LastIns(p)].free /\ ins[LastIns(p)].vcls \notin freecls) =>
                               /\ p \in DOMAIN post.colls[c].props
